@@ -208,8 +208,15 @@ def numbers():
     @st.composite
     def valid_any(draw):
         name = draw(st.sampled_from(mods))
-        p = gen.pool(name) + gen.seeds(name)
-        return draw(st.sampled_from(p)) if p else '0'
+        k = draw(st.integers(0, 3))
+        if k == 0:
+            p = gen.seeds(name)
+            return draw(st.sampled_from(p)) if p else '0'
+        if k == 1 and hasattr(core.number_modules()[name], 'format'):
+            v = draw(gen.valid_numbers(name))
+            f = core.out(core.number_modules()[name].format, v)
+            return f[1] if f[0] == 'ok' and isinstance(f[1], str) else v
+        return draw(gen.valid_numbers(name))
     sent = st.builds(lambda t, a, b: a + (t % SENT) + b, st.sampled_from(MARKUP), st.text(max_size=5), st.text(max_size=5))
     gs1 = st.builds(lambda ai, t, b: ai + (t % SENT) + b, st.sampled_from(['10', '21', '(10)', '240', '91', '99']),
                     st.sampled_from(MARKUP), st.sampled_from(['', 'A', '1']))
